@@ -299,6 +299,43 @@ Fixpoint add_wallet_inputs (extra : Z) (l : list binp) (utxos : list Z) : list b
     if need_wallet_input extra l' then add_wallet_inputs extra l' r else (l', TopSatisfied)
   end.
 
+(* ------------------------------------------------------------------ *)
+(* sweeper.go / tx_input_set.go: where a BumpRequest's StartingFeeRate   *)
+(* comes from                                                            *)
+
+(* tx_input_set.go BudgetInputSet.StartingFeeRate():
+     maxFeeRate := 0; startingFeeRate := None
+     for inp in inputs { feerate := inp.params.StartingFeeRate.UnwrapOr(0)
+                         if feerate > maxFeeRate { maxFeeRate = feerate
+                                                   startingFeeRate = Some(maxFeeRate) } }
+   i.e. the largest POSITIVE per-input starting rate; an input without one -
+   and an input carrying Some 0 - does not contribute (the set then has no
+   starting rate and the fee function asks the estimator). *)
+Definition set_start_step (acc : Z * option Z) (o : option Z) : Z * option Z :=
+  let fr := match o with Some r => r | None => 0 end in
+  if fst acc <? fr then (fr, Some fr) else acc.
+Definition set_starting_fee_rate (starts : list (option Z)) : option Z :=
+  snd (fold_left set_start_step starts (0, None)).
+
+(* sweeper.go markInputsPublishFailed: every input of the failed set gets
+     pi.params.StartingFeeRate = fn.Some(result.FeeRate)
+   where result.FeeRate is 0 when the attempt failed before a tx existed
+   (ErrZeroFeeRateDelta, ErrTxNoOutput: handleInitialTxError leaves it unset)
+   and the fee function's (next) rate otherwise. *)
+Definition retry_start (result_rate : Z) : option Z := Some result_rate.
+
+(* the same with the previously stored rate made explicit: it is IGNORED (the
+   real code overwrites it unconditionally, also with 0 - finding C18-F2) *)
+Definition mark_publish_failed (stored : option Z) (result_rate : Z) : option Z :=
+  retry_start result_rate.
+
+(* fee_bumper.go: the FeeRate carried by the TxFailed result of an attempt.
+     handleInitialTxError: ErrZeroFeeRateDelta / ErrTxNoOutput  -> left at 0 (no tx existed)
+     broadcast() with a PublishTransaction error                -> the fee function's rate *)
+Inductive attempt_failure := FailNoTx | FailAtRate (rate : Z).
+Definition failed_result_rate (a : attempt_failure) : Z :=
+  match a with FailNoTx => 0 | FailAtRate r => r end.
+
 (* concrete instances used by Exec.v and Props.v *)
 Definition new_ff64 := new_ff f_scale_delta.
 Definition rate_at_pos64 := rate_at_pos f_scale_pos.
